@@ -16,6 +16,11 @@ META = dict(
 
 def decode(op):
     t = op.split(" ")
+    if len(t) >= 8 and t[1] == "core":
+        un = lambda h: [x.replace("~", " ") for x in h.split("|")]
+        a, b = un(t[5]), un(t[6])
+        return {"kind": "core-" + t[7], "site": t[2], "count": t[3], "setup": a[0], "program": a[1],
+                "prefix_candidates": [b[1]], "followups": a[2:]}
     def d(h):
         try:
             return "" if h == "-" else binascii.unhexlify(h).decode()
@@ -43,7 +48,7 @@ def run(rep):
         d = decode(op)
         return "contain %s site=%s count=%s :: %s" % (d.get("kind"), d.get("site"), d.get("count"), d.get("program", "").strip())
     bad_spec, bad_model = V.correspondence(rep, "contain", rows, stats, keyfn=keyfn,
-                                           nontrivial=lambda op, impl: not op.startswith("contain none"))
+                                           nontrivial=lambda op, impl: not (op.startswith("contain none") or op.startswith("contain core 0 ")))
     # make the replays readable: add the decoded program to every violation written
     for (path, _) in rep.violations:
         try:
